@@ -25,8 +25,9 @@ sat!(PAll: B1 B2 B3); sat!(PNo1: B2 B3); sat!(PNo2: B1 B3); sat!(PNo3: B1 B2); s
 UNIMOCK_PRELUDE = "impl B1 for ::unimock::Unimock {} impl B2 for ::unimock::Unimock {} impl B3 for ::unimock::Unimock {}\n"
 
 
-def fn_text(name, d, byvalue, vis=""):
+def fn_text(name, d, vis=""):
     S = sorted(d["S"])
+    byvalue = d["byvalue"]
     amp = "" if byvalue else "&"
     plus = " + ".join(S)
     if d["form"] == "inline" or not S:
@@ -46,9 +47,9 @@ def render(c):
     i = c["in"]
     cid = c["case"]
     if i["mode"] == "fn":
-        item = fn_text("f", i["fns"][0], i["byvalue"])
+        item = fn_text("f", i["fns"][0])
     else:
-        fns = "\n".join("    " + fn_text(f"f{k + 1}", d, i["byvalue"], vis="pub ") for k, d in enumerate(i["fns"]))
+        fns = "\n".join("    " + fn_text(f"f{k + 1}", d, vis="pub ") for k, d in enumerate(i["fns"]))
         item = f"pub mod m {{\n    use crate::{{B1, B2, B3}};\n{fns}\n}}"
     probes = []
     for pr in c["probes"]:
@@ -78,7 +79,7 @@ def main():
     modc = [c for c in cases if c["in"]["mode"] == "mod"]
     if not thorough:
         rng.shuffle(modc)
-        modc = modc[:500]
+        modc = modc[:700]
     sel = fnc + modc
     progs = {}
     for c in sel:
@@ -113,7 +114,7 @@ def main():
     chk.cov["cases_rejected_by_rustc"] = len(dropped)
     chk.cov["distinct_nontrivial"] = len({json.dumps(c["in"], sort_keys=True) for c in sel if c["case"] not in dropped and c["l1"]["declared"]})
     chk.cov["rule"] = ("fn inputs: every subset of {B1,B2,B3} x {inline, where, impl Trait, split}; 2-function modules: bound sets "
-                       "per function x forms (quick: seeded sample of 500 modules); x 6 mock settings x by-ref/by-value x feature; 14 probes per case "
+                       "per function x forms (quick: seeded sample of 500 modules); x by-ref/by-value per function x 6 mock settings x feature; 14 probes per case "
                        "(7 probe types x bare / Impl<P>); non-trivial = compiled and at least one declared bound")
     chk.cov["exhaustive"] = bool(thorough)
     chk.cov["samples"] = [{"in": c["in"], "attr": c["attr"], "observed": {k[1]: v for k, v in observed.items() if k[0] == c["case"]}}
